@@ -55,6 +55,11 @@ FILTERS = ["only_uid", "exclude_uid", "only_root"]
 
 def script_fn(c, B, s):
     s.fork(c["id"])
+    # priming calls as uid 0 first: whatever the filters remember from them must not decide the calls made after the uid change
+    for j, f in enumerate(FILTERS):
+        chain = f if f == "only_root" else "%s:%s" % (f, c["text"])
+        s.conf(("[snoopy]\nmessage_format = \"P%d-%d\"\noutput = devnull\nfilter_chain=\"%s\"\n" % (c["id"], j, chain)).encode())
+        s.call(c["id"] * 10 + 5 + j, "execve", b"/bin/u", [b"u"], [b"E=1"], -1, 2)
     s.raw("uid %d %d %d" % (c["R"], c["E"], c["R"]))
     for j, f in enumerate(FILTERS):
         chain = f if f == "only_root" else "%s:%s" % (f, c["text"])
@@ -72,7 +77,7 @@ def check_fn(c, evs, B):
         return
     got = {}
     for e in B.res.events:
-        if e["ev"] == "REAL" and e["id"] // 10 == c["id"]:
+        if e["ev"] == "REAL" and e["id"] // 10 == c["id"] and e["id"] % 10 < 3:
             j = e["id"] % 10
             rec = sink_bytes(e, "file0")
             if rec == b"M%d-%d\n" % (c["id"], j):
